@@ -3,6 +3,7 @@ package checks
 import (
 	"bytes"
 	"fmt"
+	"github.com/versity/versitygw/s3response"
 	"sort"
 	"strings"
 
@@ -215,7 +216,7 @@ func C07(r *ck.Run) {
 	if r.Thorough() {
 		maxSet = 6
 	}
-	r.Rule(fmt.Sprintf("every subset of size <= %d of a 12-key universe chosen for order traps (siblings sorting before '/', explicit directory objects, nested prefixes, keys that are prefixes of others) built with real PutObject calls × every prefix of every key (+1 non-matching) × delimiter {none,'/','b','-','a/'} × (full listing, pagination walks with max-keys 1,2,3 following the returned markers, every start position from a menu, max-keys 0) through posix ListObjects and ListObjectsV2; distinct = (set, prefix, delimiter, mode, start, api)", maxSet))
+	r.Rule(fmt.Sprintf("every subset of size <= %d of a 12-key universe chosen for order traps (siblings sorting before '/', explicit directory objects, nested prefixes, keys that are prefixes of others) built with real PutObject calls (followed by two refused uploads below new directories and a delete of a missing key, which must leave no trace) × every prefix of every key (+1 non-matching) × delimiter {none,'/','b','-','a/'} × (full listing, pagination walks with max-keys 1,2,3 following the returned markers, every start position from a menu, max-keys 0) through posix ListObjects and ListObjectsV2; distinct = (set, prefix, delimiter, mode, start, api)", maxSet))
 	r.Assume("a start position strictly inside a common prefix may or may not repeat that prefix; everything else follows the S3 listing rules exactly")
 	subsets := subsetsUpTo(len(c07Universe), maxSet)
 	delims := []string{"", "/", "b", "-", "a/"}
@@ -243,6 +244,16 @@ func C07(r *ck.Run) {
 					ck.Fatal("put %q: %v", k, err)
 				}
 			}
+			// uploads that are refused (fewer bytes than declared) below directories that do not exist yet, and one
+			// delete of a key that never existed: neither may leave anything a listing shows
+			for _, k := range []string{"zq/new/dir/k", "zq/k2"} {
+				full := Pattern(9, 1)
+				_, err := st.A.PutObject(st.ctx(), s3response.PutObjectInput{Bucket: sp("lb"), Key: sp(k), Body: bytes.NewReader(full[:4]), ContentLength: i64(int64(len(full)))})
+				if err == nil {
+					ck.Fatal("short upload of %q was accepted", k)
+				}
+			}
+			st.A.DeleteObject(st.ctx(), &s3.DeleteObjectInput{Bucket: sp("lb"), Key: sp("zq/never/existed")})
 			trap := hasOrderTrap(keys)
 			hasDirObj := false
 			for _, k := range keys {
